@@ -456,6 +456,85 @@ void *mmap64(void *addr, size_t len, int prot, int flags, int fd, off64_t off) {
     return r;
 }
 
+/* Other entry points a refactored commit path could use for the same effect.  Each is folded into the
+ * recorded / fault-injected form of write or pwrite64 above for tracked descriptors (for a regular file a
+ * vectored write is the write of the concatenation), so that the recorder and the fault classes keep
+ * seeing every byte that reaches the file whichever call the code under test picks. */
+#include <sys/uio.h>
+static ssize_t (*real_writev)(int, const struct iovec *, int);
+static ssize_t (*real_pwritev)(int, const struct iovec *, int, off_t);
+static ssize_t (*real_pwritev64)(int, const struct iovec *, int, off64_t);
+static ssize_t (*real_pwritev2)(int, const struct iovec *, int, off_t, int);
+static int (*real_ftruncate)(int, off_t);
+
+static char *flatten(const struct iovec *iov, int cnt, size_t *total) {
+    size_t n = 0;
+    for (int i = 0; i < cnt; i++) n += iov[i].iov_len;
+    char *b = malloc(n ? n : 1);
+    if (!b) return 0;
+    size_t o = 0;
+    for (int i = 0; i < cnt; i++) { memcpy(b + o, iov[i].iov_base, iov[i].iov_len); o += iov[i].iov_len; }
+    *total = n;
+    return b;
+}
+
+ssize_t writev(int fd, const struct iovec *iov, int cnt) {
+    if (!real_writev) real_writev = dlsym(RTLD_NEXT, "writev");
+    if (!is_tracked(fd)) return real_writev(fd, iov, cnt);
+    size_t n = 0;
+    char *b = flatten(iov, cnt, &n);
+    if (!b) { errno = ENOMEM; return -1; }
+    ssize_t r = write(fd, b, n);
+    int e = errno;
+    free(b);
+    errno = e;
+    return r;
+}
+
+static ssize_t pwritev_common(int fd, const struct iovec *iov, int cnt, off64_t off) {
+    size_t n = 0;
+    char *b = flatten(iov, cnt, &n);
+    if (!b) { errno = ENOMEM; return -1; }
+    ssize_t r = pwrite64(fd, b, n, off);
+    int e = errno;
+    free(b);
+    errno = e;
+    return r;
+}
+
+ssize_t pwritev(int fd, const struct iovec *iov, int cnt, off_t off) {
+    if (!real_pwritev) real_pwritev = dlsym(RTLD_NEXT, "pwritev");
+    if (!is_tracked(fd)) return real_pwritev(fd, iov, cnt, off);
+    return pwritev_common(fd, iov, cnt, (off64_t)off);
+}
+
+ssize_t pwritev64(int fd, const struct iovec *iov, int cnt, off64_t off) {
+    if (!real_pwritev64) real_pwritev64 = dlsym(RTLD_NEXT, "pwritev64");
+    if (!is_tracked(fd)) return real_pwritev64 ? real_pwritev64(fd, iov, cnt, off) : -1;
+    return pwritev_common(fd, iov, cnt, off);
+}
+
+ssize_t pwritev2(int fd, const struct iovec *iov, int cnt, off_t off, int flags) {
+    if (!real_pwritev2) real_pwritev2 = dlsym(RTLD_NEXT, "pwritev2");
+    if (!is_tracked(fd) || off == -1) {
+        if (is_tracked(fd)) return writev(fd, iov, cnt); /* offset -1: at the file position */
+        return real_pwritev2 ? real_pwritev2(fd, iov, cnt, off, flags) : -1;
+    }
+    return pwritev_common(fd, iov, cnt, (off64_t)off);
+}
+
+ssize_t pwrite(int fd, const void *buf, size_t count, off_t off) {
+    return pwrite64(fd, buf, count, (off64_t)off); /* same call on LP64; pwrite64 handles untracked fds */
+}
+
+int ftruncate(int fd, off_t len) {
+    if (!is_tracked(fd)) {
+        if (!real_ftruncate) real_ftruncate = dlsym(RTLD_NEXT, "ftruncate");
+        return real_ftruncate(fd, len);
+    }
+    return ftruncate64(fd, (off64_t)len);
+}
+
 /* File::metadata() -> statx(fd, "", AT_EMPTY_PATH, ...) (or fstat): a gate point after the caller has
  * looked at the file's size */
 static int (*real_statx)(int, const char *, int, unsigned int, struct statx *);
